@@ -37,6 +37,7 @@ func (u *writeUnit) start(r wuReq) error {
 	}
 	if execution.Execution.RegisterChange {
 		r.ctx.WriteRegister(execution.Execution)
+		r.ctx.VerifEvent(risc.VerifKindRegWB, execution.SequenceID, int32(execution.Execution.Register), execution.Execution.RegisterValue)
 		r.ctx.DeletePendingRegisters(execution.ReadRegisters, execution.WriteRegisters)
 		log.Infoi(r.ctx, "WU", execution.InstructionType, execution.SequenceID, "write to register")
 	} else if execution.Execution.MemoryChange {
@@ -51,6 +52,7 @@ func (u *writeUnit) start(r wuReq) error {
 			}
 			u.Reset()
 			r.ctx.WriteMemory(u.memoryWrite.Execution)
+			r.ctx.VerifStore(u.memoryWrite.SequenceID, u.memoryWrite.Execution)
 			r.ctx.DeletePendingRegisters(u.memoryWrite.ReadRegisters, u.memoryWrite.WriteRegisters)
 			log.Infoi(r.ctx, "WU", u.memoryWrite.InstructionType, execution.SequenceID, "write to memory")
 			return nil
